@@ -340,6 +340,33 @@ func TestVerifC05Native(t *testing.T) {
 		}
 	}
 
+	// ---- dotted tag keys address a value inside nested objects
+	type dotted struct {
+		V int    `json:"a.b"`
+		W string `json:"a.c.d,optional"`
+	}
+	var dt dotted
+	add("dotted-key", "a.b and a.c.d present", "ok", func() error { dt = dotted{}; return UnmarshalJsonBytes([]byte(`{"a":{"b":3,"c":{"d":"x"}}}`), &dt) }, func() string {
+		if dt.V != 3 || dt.W != "x" {
+			return fmt.Sprintf("%+v", dt)
+		}
+		return ""
+	})
+	add("dotted-key", "optional a.c.d absent", "ok", func() error { dt = dotted{}; return UnmarshalYamlBytes([]byte("a:\n  b: 3\n"), &dt) }, func() string {
+		if dt.V != 3 || dt.W != "" {
+			return fmt.Sprintf("%+v", dt)
+		}
+		return ""
+	})
+	add("dotted-key", "required a.b absent (a is a scalar)", "error", func() error { dt = dotted{}; return UnmarshalJsonBytes([]byte(`{"a":3}`), &dt) }, nil)
+	add("dotted-key", "required a.b absent (a has other members)", "error", func() error { dt = dotted{}; return UnmarshalJsonBytes([]byte(`{"a":{"c":{"d":"x"}}}`), &dt) }, nil)
+	add("dotted-key", "literal key a.b instead of nesting", "free", func() error { dt = dotted{}; return UnmarshalJsonBytes([]byte(`{"a.b":3}`), &dt) }, func() string {
+		if dt.V != 3 {
+			return fmt.Sprintf("%+v", dt)
+		}
+		return ""
+	})
+
 	// ---- defaults that cannot be honoured
 	type bd1 struct {
 		V int `json:"v,default=abc"`
